@@ -9,8 +9,18 @@ impl Format for &ParolLs {
     fn format(&self, options: &FormattingOptions, comments: Comments) -> Vec<TextEdit> {
         let range = Rng::new(Range::default()).extend_to_end().0;
         let fmt_options = options.into();
-        let (new_text, comments) = self.txt(&fmt_options, comments);
-        debug_assert!(comments.is_empty());
+        let (mut new_text, comments) = self.txt(&fmt_options, comments);
+        // Comments after the last token of the grammar have not been consumed so far.
+        // They must not get lost.
+        if !comments.is_empty() {
+            for comment in &comments.comments {
+                if !new_text.is_empty() && !new_text.ends_with('\n') {
+                    new_text.push('\n');
+                }
+                new_text.push_str(comment.text().trim_end_matches(['\r', '\n']));
+                new_text.push('\n');
+            }
+        }
         vec![TextEdit { range, new_text }]
     }
 }
